@@ -218,6 +218,25 @@ Section FwdProofs.
         * intros v Hv. rewrite forward_frame; auto. eapply sched_ok_acts; eauto.
   Qed.
 
+  (* every row of the batch is what a fresh buffer would give *)
+  Lemma forward_rows_all s inputs outputs :
+    sched_ok (fun v => In v inputs) s ->
+    (forall v, In v inputs -> ~ In v (targets s)) ->
+    (forall v, In v outputs -> In v inputs \/ In v (targets s)) ->
+    forall ws (b b0 : list V),
+      length b = length b0 -> agree (fun v => In v inputs) b b0 ->
+      forward_rows ws b outputs s
+      = map (fun w => map (NetForward.rd V vzero (forward w b0 s)) outputs) ws.
+  Proof.
+    intros HS Hdis Hout. induction ws as [|w0 ws IH]; intros b b0 HL HA; simpl; auto.
+    f_equal.
+    - apply map_ext_in. intros v Hv.
+      apply (forward_agree w0 s (fun v => In v inputs) b b0 HL HS HA). apply Hout; auto.
+    - apply IH.
+      + rewrite forward_length. auto.
+      + intros v Hv. rewrite forward_frame; auto. eapply sched_ok_acts; eauto.
+  Qed.
+
   Theorem batch_rows_independent s inputs outputs garbage1 garbage2 x ws r w :
     sched_ok (fun v => In v inputs) s ->
     (forall v, In v inputs -> ~ In v (targets s)) ->
@@ -234,6 +253,72 @@ Section FwdProofs.
       apply (write_all_gain (fun _ => False) garbage1 garbage2 inputs); auto.
       + rewrite map_length. auto.
       + intros u [].
+  Qed.
+
+  (* ---------------------------------------------------------------- nets *)
+  Lemma well_sched_sched_ok acts con : forall s calc,
+    well_sched calc s -> Forall (group_of acts (build_pairs con)) s ->
+    sched_ok (fun v => In v calc) s.
+  Proof.
+    induction s as [|g r IH]; intros calc W G; simpl; auto.
+    destruct W as [W1 W2]. inversion G as [|? ? [p [Hp [Ef [Et [Ew Hag]]]]] G']; subst.
+    destruct (build_pairs_rows con p Hp) as [HL _].
+    destruct (act_groups_spec _ _ _ Hag) as [_ [A2 _]].
+    split; [exact W1|]. split; [rewrite Et, Ew; symmetry; exact HL|]. split.
+    - intros [c ns] Hin u Hu. simpl in Hu. destruct (A2 c ns Hin) as [Ens _]. rewrite Ens in Hu.
+      apply filter_In in Hu. tauto.
+    - eapply sched_ok_ext; [|apply (IH (calc ++ g_to g)); auto].
+      intros v Hv. apply in_app_iff in Hv. exact Hv.
+  Qed.
+
+  Lemma layered_sched n s :
+    Layered n -> get_order (order_fuel n) n = Some s ->
+    sched_ok (fun v => In v (n_in n)) s /\
+    (forall v, In v (n_in n) -> ~ In v (targets s)) /\
+    (forall v, In v (n_out n) -> In v (n_in n) \/ In v (targets s)).
+  Proof.
+    intros L Hs. destruct (order_terminates n L) as [s' [E [W [P G]]]].
+    rewrite E in Hs. inversion Hs; subst s'.
+    pose proof (l_sets n L) as HS. apply NoDup_app_elim in HS. destruct HS as [S1 [S2 S3]].
+    split; [|split].
+    - eapply well_sched_sched_ok; eauto.
+    - intros v Hv Ht. apply (S3 v Hv). eapply Permutation_in; eauto.
+    - intros v Hv. right. eapply Permutation_in; [symmetry; exact P|]. apply in_app_iff. auto.
+  Qed.
+
+  (* the result does not depend on what the buffer held before (np.empty garbage, or the values
+     left by an earlier call) *)
+  Theorem net_garbage_independent n garbage1 garbage2 x ws :
+    Layered n -> length garbage1 = length garbage2 ->
+    net_forward (order_fuel n) n garbage1 x ws = net_forward (order_fuel n) n garbage2 x ws.
+  Proof.
+    intros L HL. unfold NetForward.net_forward.
+    destruct (get_order (order_fuel n) n) as [s|] eqn:E; auto. f_equal.
+    destruct (layered_sched n s L E) as [H1 [H2 H3]].
+    unfold NetForward.forward2d.
+    rewrite (forward_rows_all s (n_in n) (n_out n) H1 H2 H3 ws _ (init_buf garbage2 (n_in n) x)).
+    - rewrite (forward_rows_all s (n_in n) (n_out n) H1 H2 H3 ws _ (init_buf garbage2 (n_in n) x)); auto.
+      intros v Hv. reflexivity.
+    - unfold NetForward.init_buf. rewrite !write_all_length. auto.
+    - unfold NetForward.init_buf. intros v Hv.
+      apply (write_all_gain (fun _ => False) garbage1 garbage2 (n_in n)); auto.
+      + rewrite map_length. auto.
+      + intros u [].
+  Qed.
+
+  (* C12_batch_rows_independent for nets *)
+  Theorem net_batch_rows_independent n garbage1 garbage2 x ws r w out :
+    Layered n -> length garbage1 = length garbage2 ->
+    net_forward (order_fuel n) n garbage1 x ws = Some out -> nth_error ws r = Some w ->
+    exists row, nth_error out r = Some row /\
+                net_forward (order_fuel n) n garbage2 x [w] = Some [row].
+  Proof.
+    intros L HL. unfold NetForward.net_forward.
+    destruct (get_order (order_fuel n) n) as [s|] eqn:E; [|discriminate].
+    intros Ho Hr. inversion Ho; subst out. clear Ho.
+    destruct (layered_sched n s L E) as [H1 [H2 H3]].
+    pose proof (batch_rows_independent s (n_in n) (n_out n) garbage1 garbage2 x ws r w H1 H2 H3 HL Hr) as B.
+    exists (hd [] (forward2d garbage2 x (n_in n) (n_out n) s [w])). split; auto.
   Qed.
 
   (* shape: one output row per weight row, one value per output node *)
@@ -253,3 +338,56 @@ Section FwdProofs.
     intro H. inversion H; subst. unfold NetForward.forward2d. apply forward_rows_shape.
   Qed.
 End FwdProofs.
+
+(* -------------------------------------------------------------------------------------------
+   softmax_numba over Q with an abstract exponential that is only assumed positive:
+     exps = exp(X - max(X)); sum_ = sum(exps); if sum_ == 0: sum_ = 1; result = exps / sum_
+   every entry is >= 0 and the entries of a non-empty row sum to 1.                              *)
+Section Softmax.
+  Open Scope Q_scope.
+  Variable exp : Q -> Q.
+  Hypothesis exp_pos : forall x, 0 < exp x.
+
+  Definition qmaxl (l : list Q) : Q :=
+    fold_right (fun a b => if Qle_bool a b then b else a) (hd 0 l) l.
+  Definition qsum (l : list Q) : Q := fold_right Qplus 0 l.
+  Definition softmax_q (l : list Q) : list Q :=
+    let m := qmaxl l in
+    let es := map (fun x => exp (x - m)) l in
+    let s := qsum es in
+    let s' := if Qeq_bool s 0 then 1 else s in
+    map (fun e => e / s') es.
+
+  Lemma qsum_pos es : es <> [] -> Forall (fun e => 0 < e) es -> 0 < qsum es.
+  Proof.
+    intros Hne HF. induction HF as [|e r He Hr IH]; [congruence|]. simpl.
+    destruct r as [|e' r'].
+    - simpl. lra.
+    - assert (0 < qsum (e' :: r')) by (apply IH; discriminate). lra.
+  Qed.
+  Lemma qsum_div es s : qsum (map (fun e => e / s) es) == qsum es / s.
+  Proof.
+    induction es as [|e r IH]; simpl.
+    - unfold Qdiv. ring.
+    - rewrite IH. unfold Qdiv. ring.
+  Qed.
+
+  Theorem softmax_normalised l : l <> [] ->
+    Forall (fun y => 0 <= y) (softmax_q l) /\ qsum (softmax_q l) == 1.
+  Proof.
+    intro Hne. unfold softmax_q.
+    set (m := qmaxl l). set (es := map (fun x => exp (x - m)) l).
+    assert (Hes : Forall (fun e => 0 < e) es).
+    { unfold es. apply Forall_forall. intros e He. apply in_map_iff in He.
+      destruct He as [x0 [<- _]]. apply exp_pos. }
+    assert (Hne' : es <> []) by (unfold es; destruct l; simpl; congruence).
+    pose proof (qsum_pos es Hne' Hes) as Hs.
+    assert (E : Qeq_bool (qsum es) 0 = false).
+    { destruct (Qeq_bool (qsum es) 0) eqn:E; auto. apply Qeq_bool_iff in E. lra. }
+    rewrite E. split.
+    - apply Forall_forall. intros y Hy. apply in_map_iff in Hy. destruct Hy as [e [<- He]].
+      rewrite Forall_forall in Hes. specialize (Hes e He).
+      apply Qle_shift_div_l; auto. lra.
+    - rewrite qsum_div. field. lra.
+  Qed.
+End Softmax.
